@@ -268,6 +268,19 @@ def _gen_office():
             d["comments"] = [[{"k": "t", "tok": make("X", 7300 + n), "sty": 0}]]
         return d
     out = {}
+    import zipfile
+
+    def zipof(members):
+        buf = io.BytesIO()
+        with zipfile.ZipFile(buf, "w", zipfile.ZIP_DEFLATED) as z:
+            for name, text in members:
+                z.writestr(name, text)
+        return buf.getvalue()
+    # archives whose members share base names but differ in the directory that decides whether they are skipped
+    out["gen/macosx-report.zip"] = zipof([("__MACOSX/report.txt", "resource fork ZX07401"), ("summary.txt", "summary ZB07402")])
+    out["gen/notes-report.zip"] = zipof([("notes/report.txt", "report ZB07403"), ("summary.txt", "summary ZB07404")])
+    out["gen/hidden-dir.zip"] = zipof([(".cache/minutes.txt", "cached ZX07405"), ("agenda.txt", "agenda ZB07406")])
+    out["gen/visible-dir.zip"] = zipof([("docs/minutes.txt", "minutes ZB07407"), ("docs/.minutes.txt", "draft ZX07408"), ("agenda.txt", "agenda ZB07409")])
     try:
         out["gen/comments.pptx"] = ooxml.render_pptx(doc(1, comments=True))
         out["gen/plain.pptx"] = ooxml.render_pptx(doc(2))
@@ -302,7 +315,8 @@ def build_pool() -> dict[str, bytes]:
 
 
 PAIRS = [("gen/cid-a.pdf", "gen/cid-b.pdf"), ("gen/aes256r5-empty.pdf", "gen/aes128-empty.pdf"), ("gen/cid-c.pdf", "gen/cid-a.pdf"), ("gen/comments.pptx", "gen/plain.pptx"),
-         ("gen/comments.docx", "gen/plain.docx"), ("modern_ms/pptx_table.pptx", "gen/plain.pptx"), ("open_office/slide_with_notes.odp", "gen/plain.odp"), ("open_office/headings.odt", "gen/plain.odt")]
+         ("gen/comments.docx", "gen/plain.docx"), ("modern_ms/pptx_table.pptx", "gen/plain.pptx"), ("open_office/slide_with_notes.odp", "gen/plain.odp"), ("open_office/headings.odt", "gen/plain.odt"), ("gen/macosx-report.zip", "gen/notes-report.zip"), ("gen/hidden-dir.zip", "gen/visible-dir.zip"),
+         ("archives/test_archive.zip", "gen/notes-report.zip")]
 
 
 def ext_of(name: str) -> str:
@@ -557,6 +571,9 @@ def stress_shard(ctx: Ctx):
 
         n = ctx.n(24, 600) // ctx.nshards + 1
         hyp_search(ctx, "stress", st.lists(st.sampled_from(light), min_size=8, max_size=32), ev, n, part, model_shrink=False, shrink_budget_s=30)
+        # several threads inside the pure-python AES at the same time (the code with the most module-level state per byte)
+        aes = [x for x in env.names if x.startswith("gen/aes") or x in ("gen/rc4-empty.pdf", "gen/cid-a.pdf", "gen/cid-b.pdf")]
+        hyp_search(ctx, "stress-aes", st.lists(st.sampled_from(aes), min_size=8, max_size=16), ev, max(3, n // 2), part, model_shrink=False, shrink_budget_s=30)
     finally:
         env.close()
     return part
